@@ -84,12 +84,13 @@ def _kernel(draw):
     n = draw(st.integers(9, 13))
     wires = list(range(n)) if draw(st.booleans()) else [f"q{i}" for i in range(n)]
     wires = list(draw(st.permutations(wires)))
-    ops = [{"op": "Hadamard", "p": [], "w": [w]} for w in draw(gen.subset(wires, 3))]
+    # a generic product state on every wire, so that every branch of a kernel carries amplitude
+    ops = [{"op": "RY", "p": [draw(gen.generic_angles())], "w": [w]} for w in wires]
+    ops += [{"op": "RZ", "p": [draw(gen.generic_angles())], "w": [w]} for w in draw(gen.subset(wires, 3))]
     path = draw(st.sampled_from(["mcx", "grover", "op3", "batched", "fast1q", "plain"]))
     if path == "mcx":
         k = draw(st.integers(9, n))
         ws = draw(gen.subset(wires, k))
-        ops += [{"op": "PauliX", "p": [], "w": [w]} for w in ws[:-1] if draw(st.booleans())]
         ops.append({"op": "MultiControlledX", "p": [], "w": ws, "kw": {"control_values": draw(st.lists(st.integers(0, 1), min_size=k - 1, max_size=k - 1))}})
     elif path == "grover":
         k = draw(st.integers(9, min(n, 10)))
